@@ -282,7 +282,7 @@ def _mk_setslice(kind: int):
         return _list_step("setslice", False, n0, a, b, 0, x, y, idx, j, kind)
 
     @obligation(prop="C17", name="list_str_setslice_k%d" % kind, group="list_str_setslice", sites=("state", "op"),
-                encodes=ENC_L, budget={"quick": 200, "thorough": 500},
+                encodes=ENC_L, budget={"quick": 400, "thorough": 800},
                 what="ListProxy[i:j] = iterable (kind fixed) vs built-in list of normalised strings (menu), n0<=1, "
                      "i,j in -2..2")
     def ob_str(n0: int, xi: int, idx: int, j: int) -> bool:
